@@ -541,7 +541,9 @@ func mainReplay(args []string) int {
 		return 0
 	}
 	fmt.Fprintf(realStdout, "violation class=%s\n%s\n", v.Class, v.Msg)
-	same := v.Class == rf.Class
+	// (a file recorded for a known finding in which, on this tree, a violation that
+	// is not listed shows as well: that is a violation like any other)
+	same := v.Class == rf.Class || strings.HasPrefix(rf.Class, "known:")
 	fmt.Fprintf(realStdout, "REPLAY-VIOLATION property=%s class=%s same_class_as_recorded=%v\n", rf.Property, v.Class, same)
 	if !same {
 		return 3
